@@ -908,6 +908,11 @@ def execute_refresh(ctx: Ctx | None, case: dict) -> None:
         node = Node(net, case["own"] % 4, dispatcher="dual")
         ov = node.add(DHTCommunity)
         ov.cancel_all_pending_tasks()
+        # the node knows an own address of either family (its identifier differs per family: it contains a checksum of
+        # the own IP address)
+        own = {UDPv4Address: UDPv4Address(*node.address), UDPv6Address: UDPv6Address(*node.address6[:2])}
+        for a in own.values():
+            ov.my_peer.add_address(a)
         try:
             rng = random.Random(case["seed"])
             for fam, count in (("v4", case["n4"]), ("v6", case["n6"])):
@@ -919,6 +924,15 @@ def execute_refresh(ctx: Ctx | None, case: dict) -> None:
                     n._hid = nid
                     ov.get_routing_table(n).add(n)
             tables = list(ov.routing_tables.values())
+            from ipv8.dht.routing import calc_node_id
+            for acls, t in ov.routing_tables.items():
+                mine = binstr(calc_node_id(own[acls], ov.my_peer.mid))
+                for b in t.trie.values():
+                    if b.prefix_id and not mine.startswith(b.prefix_id[:-1]):
+                        raise Violation("T4", "get_routing_table", f"the {acls.__name__} table has split bucket "
+                                                                   f"{b.prefix_id[:-1]!r} (child {b.prefix_id!r} exists) although the "
+                                                                   f"node's own {acls.__name__} identifier {mine[:16]}... does "
+                                                                   f"not lie in it", case)
             buckets = [b for t in tables for b in t.trie.values()]
             stale = [b for b in buckets if rng.random() < case["stale"] / 4.0 or case["stale"] >= 4]
             for b in buckets:
